@@ -2,6 +2,7 @@
 import Frugal.Proofs.ToWire
 import Frugal.Proofs.Strict
 import Frugal.Proofs.Holders
+import Frugal.Proofs.BufferLemmas
 import Frugal.Props.Inst.Params
 import Frugal.Props.Inst.F_skeleton_encoder
 import Frugal.Props.Inst.F_valid_binaryGuard
@@ -33,6 +34,20 @@ theorem reference_is_wire_encoding (S : Schema) (hS : S.ok = true) (ty : Ty) (v 
     (hnil : nilOK ty v = true) (ht : hasTy S ty v = true) (hn : noHolder v = true) :
     refEnc S ty v = ser (toWire S ty v) :=
   refEnc_eq_ser S hS v ty hok hnil ht hn
+
+/-- the two together, as the caller sees them: after `EncodeObject` into any sufficient buffer, `buf[:n]`
+    is the Thrift Binary serialisation of the value's denotation (buffer model: C04 / C16) -/
+theorem buffer_holds_the_wire_encoding (S : Schema) (hS : S.ok = true) (sid : Nat) (v : Val)
+    (hnil : nilOK (.strct sid) v = true) (ht : hasTy S (.strct sid) v = true) (hn : noHolder v = true)
+    (back : Bytes) (len : Nat) (chunks : List Bytes)
+    (hch : chunks.flatten = appendM Generated.params S sid v) (hfit : chunks.flatten.length ≤ len) :
+    (encodeObjectM back len chunks).2.2.take (encodeObjectM back len chunks).1
+      = ser (toWire S (.strct sid) v) := by
+  rw [encodeObject_fits back len chunks hfit]
+  simp only [List.take_left']
+  rw [hch]; unfold appendM
+  rw [encoder_refines_reference S hS (.strct sid) v rfl ht,
+      reference_is_wire_encoding S hS (.strct sid) v rfl hnil ht hn]
 
 /-- the denotation is a well-formed Thrift value of the declared wire type -/
 theorem denotation_well_formed (S : Schema) (hS : S.ok = true) (ty : Ty) (v : Val) (hok : ty.ok = true)
